@@ -16,7 +16,7 @@ yields, try/with around returns, *args/**kwargs, or that are recursive are left 
 import ast
 import copy
 
-from .core import FUNC
+from .core import FUNC, clone as _clone
 
 _COUNTER = [0]
 
@@ -68,12 +68,21 @@ def _structured(stmts, on_return):
                 new = ast.If(test=st.test, body=body + tail, orelse=orelse)
             else:
                 # returns only on some nested paths of both branches: duplicate the tail (small helpers only)
-                new = ast.If(test=st.test, body=body + copy.deepcopy(tail), orelse=orelse + tail)
+                new = ast.If(test=st.test, body=body + _clone(tail), orelse=orelse + tail)
             ast.copy_location(new, st)
             out.append(new)
             return out, t_ret or (b_ret and o_ret)
         out.append(st)
     return out, False
+
+
+def _always_returns(stmts):
+    for st in stmts:
+        if isinstance(st, (ast.Return, ast.Raise)):
+            return True
+        if isinstance(st, ast.If) and st.orelse and _always_returns(st.body) and _always_returns(st.orelse):
+            return True
+    return False
 
 
 class _Rename(ast.NodeTransformer):
@@ -86,7 +95,7 @@ class _Rename(ast.NodeTransformer):
             if isinstance(r, str):
                 return ast.copy_location(ast.Name(id=r, ctx=n.ctx), n)
             if isinstance(n.ctx, ast.Load):
-                return copy.deepcopy(r)
+                return _clone(r)
         return n
 
 
@@ -121,6 +130,19 @@ def _expand(call, target_kind, target, helper, is_method):
             stored |= {y.id for y in ast.walk(x.target) if isinstance(y, ast.Name)}
     mapping = {}
     pre = []
+    # `T = helper(..)` where every return of the helper is `return v` for one helper-local v: let v be T itself
+    # (no temporary, the expanded code reads like the code before the helper was extracted)
+    ret_local = None
+    rets = [x for x in ast.walk(helper) if isinstance(x, ast.Return)]
+    if target_kind == "assign" and len(target) == 1 and isinstance(target[0], ast.Name) and rets and \
+            all(isinstance(r.value, ast.Name) for r in rets) and len({r.value.id for r in rets}) == 1:
+        v = rets[0].value.id
+        T = target[0].id
+        helper_names = {x.id for x in ast.walk(helper) if isinstance(x, ast.Name)}
+        arg_names = {x.id for a in list(call.args) + [k.value for k in call.keywords] for x in ast.walk(a) if isinstance(x, ast.Name)}
+        if v in stored and v not in ps and T not in (helper_names - {v}) and T not in arg_names and _always_returns(helper.body):
+            ret_local = v
+            mapping[v] = T
     for p in ps:
         a = bound[p]
         if p in stored or not isinstance(a, (ast.Name, ast.Constant)):
@@ -129,24 +151,26 @@ def _expand(call, target_kind, target, helper, is_method):
             # decided here, so a fresh local is used.
             if isinstance(a, ast.Name) and p in stored:
                 mapping[p] = p + tag
-                pre.append(ast.Assign(targets=[ast.Name(id=p + tag, ctx=ast.Store())], value=copy.deepcopy(a), lineno=call.lineno, col_offset=0))
+                pre.append(ast.Assign(targets=[ast.Name(id=p + tag, ctx=ast.Store())], value=_clone(a), lineno=call.lineno, col_offset=0))
             elif isinstance(a, (ast.Attribute, ast.Subscript)) and p not in stored:
                 mapping[p] = a          # side-effect free access path: substitute
             else:
                 mapping[p] = p + tag
-                pre.append(ast.Assign(targets=[ast.Name(id=p + tag, ctx=ast.Store())], value=copy.deepcopy(a), lineno=call.lineno, col_offset=0))
+                pre.append(ast.Assign(targets=[ast.Name(id=p + tag, ctx=ast.Store())], value=_clone(a), lineno=call.lineno, col_offset=0))
         else:
             mapping[p] = a if isinstance(a, ast.Constant) else a.id
     for v in stored:
         if v not in mapping:
             mapping[v] = v + tag
-    body = [copy.deepcopy(s) for s in helper.body if not (isinstance(s, ast.Expr) and isinstance(s.value, ast.Constant))]
+    body = [_clone(s) for s in helper.body if not (isinstance(s, ast.Expr) and isinstance(s.value, ast.Constant))]
     body = [_Rename(mapping).visit(s) for s in body]
 
     def on_return(r):
         val = r.value if r.value is not None else ast.Constant(value=None)
-        if target_kind == "assign":
-            st = ast.Assign(targets=[copy.deepcopy(t) for t in target], value=val)
+        if target_kind == "assign" and ret_local is not None:
+            st = ast.Pass()
+        elif target_kind == "assign":
+            st = ast.Assign(targets=[_clone(t) for t in target], value=val)
         elif target_kind == "return":
             st = ast.Return(value=val)
         else:
@@ -159,7 +183,7 @@ def _expand(call, target_kind, target, helper, is_method):
         anames = {x.id for a in list(call.args) + [k.value for k in call.keywords] for x in ast.walk(a) if isinstance(x, ast.Name)}
         if tnames & anames:
             return None
-        new = [ast.Assign(targets=[copy.deepcopy(t) for t in target], value=ast.Constant(value=None), lineno=call.lineno, col_offset=0)] + new
+        new = [ast.Assign(targets=[_clone(t) for t in target], value=ast.Constant(value=None), lineno=call.lineno, col_offset=0)] + new
     for s in pre + new:
         ast.fix_missing_locations(s)
     return pre + new
@@ -173,7 +197,7 @@ def inlined(module, func, depth=2, tests=False, exclude=()):
         cls = getattr(cls, "_parent", None)
     methods = {f.name: f for f in (cls.body if cls is not None else []) if isinstance(f, FUNC)}
     module_funcs = {f.name: f for f in module.tree.body if isinstance(f, FUNC)}
-    new = copy.deepcopy(func)
+    new = _clone(func)
     used = []
     for _ in range(depth):
         locals_ = {f.name: f for f in ast.walk(new) if isinstance(f, FUNC) and f is not new}
